@@ -275,4 +275,25 @@ def wrapSame (a : List Nat) : Res (List Nat) := .ok a
 /-- `Zeroize for NonZero<T>` / `Odd<T>`: `self.0.zeroize()` -/
 def wrapZeroize (a : List Nat) : Res (List Nat) := .ok (uzero a.length)
 
+/-! ## coverage round — observers of a wrapper (`AsRef`, `Serialize`): they hand out the wrapped value itself -/
+
+/-- `k` little-endian bytes of `v` (C16 owns the limb-level encoder; used on values here) -/
+def leBytesOf : Nat → Nat → List Nat
+  | 0, _ => []
+  | k + 1, v => v % 256 :: leBytesOf k (v / 256)
+
+/-- bincode framing of serdect's byte array on output: `u64` LE length, then the `8·LIMBS` LE bytes -/
+def bincodeFrame (a : List Nat) : List Nat := leBytesOf 8 (8 * a.length) ++ leBytesOf (8 * a.length) (val a)
+
+/-- `Serialize for NonZero<T>` (src/non_zero.rs:378-386) / `for Odd<T>` (src/odd.rs:242-250): `self.0.serialize(..)` -/
+def wrapSer (a : List Nat) : Res (List Nat) := .ok (bincodeFrame a)
+/-- the same for `T = Limb`: `Word::serialize`, 8 LE bytes -/
+def wrapLimbSer (x : Nat) : Res (List Nat) := .ok (leBytesOf 8 x)
+
+/-- `AsRef<T> for NonZero<T>` (src/non_zero.rs:198-202) / `for Odd<T>` (src/odd.rs:80-84): `&self.0` -/
+def wrapAsRef (a : List Nat) : Res (List Nat) := .ok a
+def wrapLimbAsRef (x : Nat) : Res Nat := .ok x
+/-- `AsRef<[Limb]> for Odd<T>` (src/odd.rs:86-93): `self.0.as_ref()` — the limbs of the wrapped value -/
+def oddAsRefLimbs (a : List Nat) : Res (List Nat) := .ok a
+
 end CB.Wrappers
